@@ -2,7 +2,11 @@
 
 package mapping
 
-import "io"
+import (
+	"io"
+
+	"tunnox-core/internal/client/tunnel"
+)
 
 // Export shim for the C16 verification harness (add-only; compiled only with -tags verif).
 
@@ -28,3 +32,8 @@ func (h *BaseMappingHandler) VerifHandleConnection(conn io.ReadWriteCloser) { h.
 // OnClosed closure of handleConnection updates.
 func (h *BaseMappingHandler) VerifActiveConns() int32    { return h.activeConnCount.Load() }
 func (h *BaseMappingHandler) VerifConnectionCount() int64 { return h.trafficStats.ConnectionCount.Load() }
+
+// VerifWrapTunnelManager replaces the handler's tunnel manager by wrap(current) (a double that embeds the real one).
+func (h *BaseMappingHandler) VerifWrapTunnelManager(wrap func(tunnel.TunnelManager) tunnel.TunnelManager) {
+	h.tunnelManager = wrap(h.tunnelManager)
+}
